@@ -507,22 +507,34 @@ func (c11) Run(e *Env) {
 				cache.set(gostatsd.Source(s), peekEntry{hit: true, inst: c11Instances[e.Draw(len(c11Instances))]})
 			}
 			e.Event("cache %s -> %+v", s, cache.get(gostatsd.Source(s)).hit)
-		case 2: // the cache accepts one pending source from IpSink
-			select {
-			case s := <-cache.sink:
-				src := string(s)
-				if outstanding[src] {
-					e.Failf("C11/second-lookup-outstanding", "source %s written to IpSink while an earlier lookup for it is still unanswered", src)
+		case 2: // the cache accepts the pending sources from IpSink
+			// (all that are offered, one after the other: which of several pending sources the stage
+			// offers first follows a Go map walk, so accepting only the first would not replay)
+			var acc []string
+			for {
+				e.Settle()
+				select {
+				case s := <-cache.sink:
+					src := string(s)
+					if outstanding[src] {
+						e.Failf("C11/second-lookup-outstanding", "source %s written to IpSink while an earlier lookup for it is still unanswered", src)
+					}
+					if !needLookup[src] {
+						e.Failf("C11/lookup-without-items", "source %s written to IpSink but nothing is waiting for it", src)
+					}
+					delete(needLookup, src)
+					outstanding[src] = true
+					acc = append(acc, src)
+					continue
+				default:
 				}
-				if !needLookup[src] {
-					e.Failf("C11/lookup-without-items", "source %s written to IpSink but nothing is waiting for it", src)
-				}
-				delete(needLookup, src)
-				outstanding[src] = true
-				e.Event("sink accepts %s", src)
-			default:
-				e.Failf("C11/lookup-not-offered", "sources %v have items waiting and no lookup outstanding, but nothing is offered on IpSink", sortedStrKeys2(needLookup))
+				break
 			}
+			if len(needLookup) > 0 {
+				e.Failf("C11/lookup-not-offered", "sources %v have items waiting and no lookup outstanding, but nothing (more) is offered on IpSink", sortedStrKeys2(needLookup))
+			}
+			sort.Strings(acc)
+			e.Event("sink accepts %v", acc)
 		case 3: // an outstanding lookup completes
 			src := outs[e.Choose("complete", len(outs))]
 			var inst *gostatsd.Instance
